@@ -227,7 +227,7 @@ def run(ctx, args):
     ctx.regen(["GenXEval.v"])
     ctx.build("Props/C15.vo")
     from _delb.xpath import parse
-    n_cases = 700 if quick else 5000
+    n_cases = 700 if quick else 4000
     preamble, terms, meta = [], [], []
     with no_gc():
         for ci in range(n_cases):
@@ -285,8 +285,7 @@ def run(ctx, args):
                                       or "empty-namespaces-mapping" in classes) else None)
             ctx.sample(dict(small, outcome=out[0] + (":" + str(out[1]))))
             # ---- the model on the same case
-            key = "T%d" % ci
-            preamble.append("Definition %s : itree := %s." % (key, t0.coq()))
+            key = t0.coq()          # inlined: a preamble with one definition per case would be re-read by every file
             terms.append("run_foc %s %s %s %s %s" % (key, xq.coq_nsmap([(k, v) for k, v in m_eval if k in ("", "p", "xml")]),
                                                       xq.coq_nsmap([(k, v) for k, v in m_create if k in ("", "p", "xml")]),
                                                       xpath_ast.coq_ast(tup), xq.coq_pos(pos)))
@@ -296,7 +295,7 @@ def run(ctx, args):
                 cls = out[1] if out[1] in xq.EXN else "OtherError"
                 want = [1 if cls in ("ValueError", "AmbiguousTreeError", "XPathEvaluationError", "InvalidOperation") else 2, xq.EXN.index(cls)] + enc_node(after)
             meta.append((small, want, out))
-    res = ctx.coq_eval("c15_cases", xq.REQ + "\n".join(preamble) + "\n", terms, chunk=120)
+    res = xq.coq_eval_retry(ctx, "c15_cases", xq.REQ + "\n".join(preamble) + "\n", terms, chunk=120)
     for (small, want, out), got in zip(meta, res):
         if got is None:
             ctx.mismatch("FetchCreate.foc (coqc)", json.dumps(small))
